@@ -10,9 +10,32 @@ open Hertz Hertz.Driver Hertz.H1 Hertz.H1.RespRead
 def errTok : Err → String
   | .eof => "err:eof" | .timeout => "err:timeout" | .bad => "err:bad" | .tooLarge => "err:toolarge" | .unexpectedEOF => "err:ueof"
 
+/-- some LF-terminated line is made of more than 15 hex digits only: hertz refuses chunk-size lines that long (safe refusal) -/
+def hasLongHexLine (s : Bytes) : Bool :=
+  let rec go : Bytes → Nat → Bool → Bool
+    | [], _, _ => false
+    | c :: t, n, allHex =>
+      if c = 10 then (allHex && n > 15) || go t 0 true
+      else if c = 13 || c = 32 then go t n allHex
+      else go t (n + 1) (allHex && (Spec.Resp.hexVal c).isSome)
+  go s 0 true
+
+/-- some LF-terminated line is a hex number ≥ 2^47: allocating a buffer for such a chunk exceeds what `make` accepts -/
+def hasHugeChunk (s : Bytes) : Bool :=
+  let rec go : Bytes → Nat → Bool → Bool
+    | [], _, _ => false
+    | c :: t, v, allHex =>
+      if c = 10 then (allHex && v ≥ 2 ^ 47) || go t 0 true
+      else if c = 13 || c = 32 then go t v allHex
+      else match Spec.Resp.hexVal c with
+        | some d => go t (v * 16 + d) allHex
+        | none => go t v false
+  go s 0 true
+
 /-- the response a strict reader sees at the front of `s` (an interim `100 Continue` skipped),
 `none` when `s` is not a well-formed response there -/
 def specResponse (e : End) (s : Bytes) : Option (Nat × List (Bytes × Bytes) × Bytes) := do
+  if hasLongHexLine s then none
   let (m0, rest0) ← Spec.Resp.decodeOne false s
   let (m, rest) ← if m0.status == 100 then Spec.Resp.decodeOne false rest0 else pure (m0, rest0)
   if m.status == 100 then none
@@ -53,7 +76,7 @@ def implView (impl : List String) : Option (Nat × List (Bytes × Bytes) × Byte
 def comparable (fs : List (Bytes × Bytes)) : Bool :=
   ["content-type", "content-encoding", "server", "connection", "trailer"].all (fun n =>
     (fs.filter (fun kv => Spec.Resp.lowerAll kv.1 == n.toUTF8.toList)).length ≤ 1) &&
-  fs.all (fun kv => !kv.2.isEmpty || !["content-type", "content-encoding", "server"].contains (String.fromUTF8! (ByteArray.mk (Spec.Resp.lowerAll kv.1).toArray)))
+  fs.all (fun kv => !kv.2.isEmpty || !(["content-type", "content-encoding", "server"].map (·.toUTF8.toList)).contains (Spec.Resp.lowerAll kv.1))
 
 def specCheck (e : End) (maxBody : Nat) (s : Bytes) (impl : List String) : Bool × String :=
   match specResponse e s with
@@ -145,11 +168,14 @@ def handle : Handler
     let s ← hx stream
     let e := if endK == "stall" then End.stall else End.eof
     let (sok, snote) := specCheck e maxBody.toNat! s impl
+    -- known finding: a huge declared chunk size makes the reader allocate (and panic) before any data arrived
+    if impl == ["PANIC"] && hasHugeChunk s then
+      return { out := impl, spec := false, cls := "huge-chunk-size-alloc", specNote := "reader panicked allocating a peer-declared chunk size", tag := "respread:hugechunk" }
     match readResponse (flags.contains 'n') maxBody.toNat! e s with
     | .error x => pure { out := [errTok x], spec := sok, specNote := snote, tag := "respread:" ++ errTok x ++ (if endK == "stall" then "S" else "E") }
     | .ok r =>
       let hd := r.head
-      pure { out := ["ok", toString hd.status, boolTok hd.http11, encHex hd.contentType, encHex hd.contentEncoding, encHex hd.server,
+      pure { out := ["ok", toString (if hd.status == 0 then 200 else hd.status), boolTok hd.http11, encHex hd.contentType, encHex hd.contentEncoding, encHex hd.server,
                      toString hd.cl, encHex hd.clBytes, boolTok hd.connClose, toString hd.h.length]
                     ++ hd.h.flatMap (fun kv => [encHex kv.1, encHex kv.2])
                     ++ [toString hd.cookies.length] ++ hd.cookies.map encHex
